@@ -237,6 +237,10 @@ func (tree *MutableTree) Iterate(fn func(key []byte, value []byte) bool) (stoppe
 			return true, nil
 		}
 	}
+	// an iteration cut short by a storage failure is not a complete iteration
+	if err := itr.Error(); err != nil {
+		return false, err
+	}
 	return false, nil
 }
 
